@@ -217,6 +217,72 @@ def attach_loops(body, loops, report):
     return out, len(found)
 
 
+def unchain_lets(body, report):
+    """R14: `if c1 && let P = e && c2 { B }` WITHOUT an else branch -> `if c1 { if let P = e { if c2 { B } } }`.
+    Let-chains are outside what Verus accepts; for an else-less `if` the nesting is the chain's own evaluation order
+    (left to right, short-circuit, bindings visible to the conjuncts to their right and to the block)."""
+    n_done = 0
+    pos = 0
+    while True:
+        m = mask(body)
+        mm = re.compile(r'\bif\b').search(m, pos)
+        if not mm:
+            break
+        pos = mm.end()
+        # `else if` chains are left alone (the nesting would change which branch an outer else belongs to)
+        if re.search(r'\belse\s*$', m[:mm.start()]):
+            continue
+        # the condition: up to the block's `{` at depth 0
+        k, depth = mm.end(), 0
+        while k < len(m):
+            ch = m[k]
+            if ch in '([':
+                depth += 1
+            elif ch in ')]':
+                depth -= 1
+            elif ch == '{' and depth == 0:
+                break
+            elif ch == ';' and depth == 0:
+                k = -1
+                break
+            k += 1
+        if k < 0 or k >= len(m):
+            continue
+        cond_m, cond = m[mm.end():k], body[mm.end():k]
+        # split at top-level `&&`
+        parts, d, last, i = [], 0, 0, 0
+        while i < len(cond_m):
+            ch = cond_m[i]
+            if ch in '([{':
+                d += 1
+            elif ch in ')]}':
+                d -= 1
+            elif d == 0 and cond_m.startswith('&&', i):
+                parts.append(cond[last:i]); last = i + 2; i += 1
+            i += 1
+        parts.append(cond[last:])
+        parts = [x.strip() for x in parts]
+        if len(parts) < 2 or not any(re.match(r'let\b', x) for x in parts):
+            continue
+        try:
+            close = match_brace(m, k)
+        except Exception:
+            continue
+        if re.match(r'\s*else\b', m[close + 1:]):
+            continue    # with an else branch the chain cannot be nested: left as it is (Verus will reject it -> undecided)
+        inner = body[k:close + 1]
+        new = ''
+        for x in parts[:-1]:
+            new += f'if {x} {{ '
+        new += f'if {parts[-1]} ' + inner + ' }' * (len(parts) - 1)
+        body = body[:mm.start()] + new + body[close + 1:]
+        n_done += 1
+        pos = mm.start() + 2
+    if n_done:
+        report['rewrites']['R14 let-chain without else -> nested if'] = report['rewrites'].get('R14 let-chain without else -> nested if', 0) + n_done
+    return body
+
+
 def insert_hints(body, hints, report):
     """hints: list of (where, regex, text)."""
     lines = body.split('\n')
@@ -330,6 +396,7 @@ def process_block(kind, header, dirs, report):
         if n == 0 and not optional:
             raise AnchorError(f'subst /{mm.group(1)}/ matched nothing in {entry["anchor"]}')
         entry['rewrites'][f'R3/subst /{mm.group(1)}/ => {mm.group(2)}'] = n
+    body = unchain_lets(body, entry)
     body = insert_hints(body, hints, entry)
     prologue = ''.join(d[2] for d in dirs if d[0] == 'prologue')
     if prologue and kind == 'fn':
